@@ -71,6 +71,7 @@ def clsName : Cls → String
   | .tripleQuoteEnd => "triple-quote-end"
   | .tripleCursorInside => "triple-quote-cursor-inside"
   | .loneQuoteInside => "lone-quote-cursor-inside"
+  | .tildeCursorInside => "tilde-entry-cursor-inside"
 
 def handle (op : String) (args : List Sx) : Option Sx :=
   match op, args with
